@@ -550,7 +550,7 @@ PROPS = {
                      ["meta_adapt::mutate is modelled with the factor 10^exponent as an arbitrary float (MetaAdapt.v); reached through the cfg(cambrian_verif) re-export"],
                      ["best-seen file and CSV rows (Writer) are not modelled yet",
                       "positive finite mutation scale: proved non-negative and not NaN per step (rescale_scale_sign) and finite and strictly positive per step while the scale is within [2^-900, 2^900] (rescale_keeps_pos_fin); a lineage leaving that range needs at least 22 consecutive extreme factors (probability below 1e-50): not excluded by a theorem, monitored on every report item",
-                      "that the meta parameters of a report item are those produced by next_meta_params: read off the items, the selection among population members is not modelled in the controller"]),
+                      "every_record_has_valid_probabilities assumes that the meta parameters handed out under a seed are the override, exploratory, or (mutated) meta parameters created under an earlier seed: the shape of next_meta_params is a regenerated source fact, the link to earlier seeds (population members were created earlier) is read off the code; monitored on every report item"]),
     "C12": _ops_prop("C12", [{"kind": "ops", "name": "mixed", "profile": "mixed", "count": {"quick": 480, "thorough": 8000}, "salt": 12}]),
     "C13": _ops_prop("C13", [{"kind": "ops", "name": "mixed", "profile": "mixed", "count": {"quick": 320, "thorough": 6000}, "salt": 13},
                              {"kind": "ops", "name": "p1", "profile": "p1", "count": {"quick": 160, "thorough": 2000}, "salt": 131},
